@@ -142,6 +142,26 @@ def check(run):
     cov['traces_validated_against_impl'] += len(sets)
     if model_mismatch:
         raise Inconclusive('Tree::insert executed from MIR disagrees with the real macro on ' + json.dumps(model_mismatch[:2])[:400])
+    # ---- "never shadowed" at run time: in every set that compiles, every reference spelling of every declaration reaches its own handler
+    ok_sets = [st for st, (compiles, err) in zip(sets, got) if compiles and ref_set_compiles(st['decls'], st['attrs']) and all(ref_self_ok(d) for d in st['decls'])]
+    # (a declaration written in lower case only has an empty short form: no header spells it, such "spellings" are not sent)
+    spell = [[[':'.join(pth) + ('?' if d.endswith('?') else '') for pth in sorted(set(raw_paths(d))) if all(pth)] for d in st['decls']] for st in ok_sets]
+    try:
+        fails = compile_probe.run_sets(ok_sets, spell)
+    except build.BuildError as e:
+        raise Inconclusive(str(e))
+    n_sp = sum(len(x) for sp in spell for x in sp)
+    cov['runtime_spellings'] = {'sets': len(ok_sets), 'spellings_sent_through_Interface_run': n_sp, 'failures': len(fails)}
+    cov['traces_validated_against_impl'] += n_sp
+    for f in fails:
+        st = ok_sets[f['set']]
+        role = 'RUNTIME:spelling'
+        cur = viol.get(role)
+        if cur is None or len(str(st)) < len(str(cur['set'])):
+            viol[role] = {'rule': 'RUNTIME', 'what': f"in the compiling set {st['decls']} (+{st['attrs']}) the spelling {f['spelling']!r} of declaration {f['decl']} does not reach its own handler exactly once "
+                                                     f"(handler hits {f['hits']}, errors {f['errors']})", 'decls': st['decls'], 'attrs': st['attrs'], 'set': st, 'input': f['spelling'].encode().hex(),
+                          'decl': f['decl'], 'spelling': f['spelling'], 'role': role}
+    run.log(f'[native] {n_sp} reference spellings of {len(ok_sets)} compiling sets sent through Interface::run: {len(fails)} did not reach exactly their own handler')
     run.log(f'[native] {len(sets)} generated crates ({n_coll} colliding by the reference): rustc verdict == reference == MIR execution' if not viol else f'[native] {len(viol)} disagreement(s) between rustc and the reference')
     # ---- symbolic stage
     records = []
@@ -213,6 +233,11 @@ def check(run):
 
 
 def confirm(run, v):
+    if v['rule'] == 'RUNTIME':
+        st = {'decls': v['decls'], 'attrs': v.get('attrs') or []}
+        sp = [[v['spelling']] if k == v['decl'] else [] for k in range(len(v['decls']))]
+        fails = compile_probe.run_sets([st], sp)
+        return bool(fails), {'declarations': v['decls'], 'attrs': st['attrs'], 'spelling': v['spelling'], 'observed': fails}
     decls = v['decls']
     attrs = v.get('attrs') or []
     want = ref_set_compiles(decls, attrs)
